@@ -330,4 +330,88 @@ theorem check_closed (ap : Bool) (fs : List Fld) (hw : wfInput fs = true) (hne :
         omega
       · rw [S_append_pad]; have := gap_mod ptr hS; rw [hgz] at this; exact this
 
+/-! ### the accepted size is the natural C size of the user's member list -/
+
+theorem roundUp_gap {s : Nat} (h : Al s) (x : Nat) : roundUp x s = x + gap x s := by
+  unfold roundUp gap; unfold Al at h
+  rcases h with g | g | g | g <;> simp only [g] <;> omega
+
+theorem S_cons (q : Fld × Nat) (r : List (Fld × Nat)) : S (q :: r) = max q.1.align (S r) := by
+  unfold S; rw [strictest_cons]; omega
+
+theorem cAlignof_cons (f : Fld) (fs : List Fld) : cAlignof (f :: fs) = max f.align (cAlignof fs) := by
+  have h1 := cAlignof_eq ((f, 0) :: fs.map (fun x => (x, 0)))
+  have h2 := cAlignof_eq (fs.map (fun x => (x, 0)))
+  simp only [List.map_cons, List.map_map, Function.comp_def, List.map_id'] at h1 h2
+  rw [h1, h2, S_cons]
+
+/-- the leading loop ends where a C compiler's running offset ends, and the strictest alignment of its output (pads
+have alignment 1) is the strictest alignment of the user's members -/
+theorem lead_natural (ap : Bool) : ∀ (fs : List Fld) (p : Nat) r e, wfInput fs = true →
+    lead ap fs p = .ok (r, e) → (cOffsets fs p).2 = e ∧ S r = cAlignof fs
+  | [], p, r, e, _, h => by
+    simp [lead] at h
+    obtain ⟨rfl, rfl⟩ := h
+    simp [cOffsets, S, strictest, cAlignof]
+  | f :: fs, p, r, e, hw, h => by
+    have hwf : f.wf = true ∧ wfInput fs = true := by simpa [wfInput] using hw
+    have ⟨hal, _, _⟩ := wf_al hwf.1
+    have hru := roundUp_gap hal p
+    unfold lead at h
+    split at h
+    · rename_i hp
+      have hg : gap p f.align = 0 := by
+        unfold gap; unfold Al at hal; rcases hal with g | g | g | g <;> simp only [g] at hp ⊢ <;> omega
+      split at h
+      · rename_i r' e' hr
+        have ih := lead_natural ap fs _ r' e' hwf.2 hr
+        simp at h; obtain ⟨rfl, rfl⟩ := h
+        refine ⟨?_, ?_⟩
+        · simp only [cOffsets, hru, hg, Nat.add_zero]; exact ih.1
+        · rw [S_cons, cAlignof_cons, ih.2]
+      · simp at h
+    · rename_i hp
+      split at h
+      · simp at h
+      · dsimp only at h
+        have hg : gap p f.align = f.align - p % f.align := by
+          unfold gap; unfold Al at hal; rcases hal with g | g | g | g <;> simp only [g] at hp ⊢ <;> omega
+        split at h
+        · rename_i r' e' hr
+          have ih := lead_natural ap fs _ r' e' hwf.2 hr
+          simp at h; obtain ⟨rfl, rfl⟩ := h
+          refine ⟨?_, ?_⟩
+          · simp only [cOffsets, hru, hg]; exact ih.1
+          · rw [S_cons, S_cons, cAlignof_cons, ih.2]; simp only [padFld]
+            have := al_pos hal; omega
+        · simp at h
+
+/-- whatever `check_alignment` accepts has the size a C compiler gives the user's members -/
+theorem checked_size_natural {ap : Bool} {fs : List Fld} {o : Out} (hw : wfInput fs = true) (hne : fs ≠ [])
+    (h : checkAlignment ap fs = .ok o) : o.size = cSizeof fs := by
+  cases hl : lead ap fs 0 with
+  | error e => simp [checkAlignment, hl] at h
+  | ok v =>
+    obtain ⟨lf, ptr⟩ := v
+    have L := lead_ok ap fs 0 lf ptr hw hl
+    have N := lead_natural ap fs 0 lf ptr hw hl
+    have hS := S_al lf L.als
+    have hend : ptr = sumSizes lf := by have := L.endp; omega
+    rw [check_closed ap fs hw hne hl] at h
+    have hc : cSizeof fs = ptr + gap ptr (S lf) := by
+      unfold cSizeof; rw [N.1, ← N.2]; exact roundUp_gap hS ptr
+    unfold closed at h
+    simp only at h
+    split at h
+    · rename_i hg
+      simp at h; subst h; simp only [hc, hg]; omega
+    · rename_i hg
+      split at h; · simp at h
+      simp at h; subst h
+      have hpos : 0 < gap ptr (S lf) := by omega
+      have hsz : (trailPad (gap ptr (S lf))).size = gap ptr (S lf) := trailPad_size hpos
+      have h0 : sumSizes ([] : List (Fld × Nat)) = 0 := rfl
+      simp only [sumSizes_append, sumSizes_cons, hsz, h0, hc]
+      omega
+
 end Pyrtma.Layout
